@@ -33,7 +33,15 @@ func handlePUSH(params x86genParams, ctx *CodeGenContext) ([]byte, error) {
 	code := []byte{}
 
 	// Add prefixes if required
-	if opsInterface.Require66h() { // Check for operand size prefix
+	// (PUSH imm always pushes the mode's operand size: the magnitude of the
+	// immediate must not select a 66h prefix; the immediate emitted below is
+	// iw in 16-bit mode and id in 32-bit mode)
+	isImm := false
+	switch opType {
+	case ng_operand.CodeIMM, ng_operand.CodeIMM8, ng_operand.CodeIMM16, ng_operand.CodeIMM32, ng_operand.CodeIMM64:
+		isImm = true
+	}
+	if opsInterface.Require66h() && !isImm { // Check for operand size prefix
 		code = append(code, 0x66)
 	}
 	if opsInterface.Require67h() { // Check for address size prefix
